@@ -96,12 +96,13 @@ def run_obligations(prop, obls, tier):
     for o in obls:
         rs = [r for r in results if r['oid'] == o.id]
         agg = {'status': 'ok', 'tasks': len(rs), 'queries': 0, 'solver_s': 0.0, 'paths': 0,
-               'outcomes': {}, 'functions': set(), 'covers_witnessed': 0, 'bound_hits': 0, 'task_results': []}
+               'outcomes': {}, 'functions': set(), 'covers_witnessed': 0, 'bound_hits': 0, 'task_results': [], 'traces_validated': 0}
         for r in rs:
             agg['queries'] += r.get('queries', 0)
             agg['solver_s'] += r.get('solver_s', 0.0)
             agg['paths'] += r.get('paths', 0)
             agg['covers_witnessed'] += r.get('covers_witnessed', 0)
+            agg['traces_validated'] += r.get('traces_validated', 0)
             agg['bound_hits'] += r.get('outcomes', {}).get('bound', 0)
             for k, v in r.get('outcomes', {}).items():
                 agg['outcomes'][k] = agg['outcomes'].get(k, 0) + v
